@@ -62,11 +62,11 @@ inductive BlockRes where
 
 /-- `readNextBlock` at a position where `rest` is what remains of the file -/
 def readNextBlock (cfg : Cfg) (d : Decoder) (crc : Checksum) (rest : Bytes) : BlockRes :=
-  if rest.length < 16 then .eof else
+  if shorterThan rest 16 then .eof else
   let h := decodeBlockHeader rest
   let after := rest.drop 16
   if 0 < h.csize && after.isEmpty then .eof
-  else if after.length < h.csize then .err .ueof
+  else if shorterThan after h.csize then .err .ueof
   else
     match parseBlock cfg d crc h (after.take h.csize) with
     | .error e => .err e
@@ -75,9 +75,10 @@ def readNextBlock (cfg : Cfg) (d : Decoder) (crc : Checksum) (rest : Bytes) : Bl
 theorem readNextBlock_ok_length {cfg d crc rest es rest'}
     (h : readNextBlock cfg d crc rest = .ok es rest') : rest'.length + 16 ≤ rest.length := by
   unfold readNextBlock at h
+  simp only [shorterThan_eq, decide_eq_true_eq] at h
   split at h
   · cases h
-  · simp only at h
+  · try simp only at h
     split at h
     · cases h
     · split at h
